@@ -135,3 +135,22 @@ Lemma merge_pinned_refuted :
 Proof.
   exists false, 102, src_ex. eexists _, _, _. split; [reflexivity|]. simpl. discriminate.
 Qed.
+
+(** The pinned [IH5MFRecord.commit_patch]: a refused commit leaves a manifest link in the
+    source block which the following merge writes into the merged file; that file is not
+    accepted as a record (the real code trips an assertion after creating the target). *)
+Definition f_mf : file :=
+  MkFile (MkUb 1 0 10 None (Some 100) (Some (MkExt false 50 500))) 100 (Some (50, 500)).
+
+Lemma refused_commit_pinned_refuted :
+  exists S o S' M f,
+    checks true false (rs_files S) = None /\ rstep true false S o = None /\
+    merge_files true 200 (rapply_pinned true false S o) = MOk S' M f /\
+    checks true false [f] <> None /\
+    (exists S2 M2 f2, merge_files true 200 (rapply true false S o) = MOk S2 M2 f2 /\
+                      checks true false [f2] = None).
+Proof.
+  exists (MkRs [] [f_mf] false), (RCommit 51 501). eexists _, _, _.
+  split; [reflexivity|]. split; [reflexivity|]. split; [reflexivity|].
+  split; [vm_compute; discriminate|]. eexists _, _, _. split; reflexivity.
+Qed.
